@@ -141,7 +141,7 @@ class HistGen:
             cell.append("deliv=" + ("named" if delivered == named else ("pairtok" if delivered in p.assets else "foreign")))
             op = w.op_swap_raw(actor, p, "hook", named, named_amt, delivered, delivered_amt, to=self.maybe_to(actor))
         else:
-            fmode = rng.choice(["exact", "less", "more", "absent", "extra", "other_only", "lookalike", "other_only"])
+            fmode = rng.choice(["exact", "less", "more", "absent", "extra", "other_only", "lookalike", "other_only", "split"])
             funds = []
             nat_named = named if named[0] == "n" else None
             if fmode == "exact" and nat_named:
@@ -161,6 +161,11 @@ class HistGen:
                 others = [a for a in w.natives if a != nat_named]
                 if others:
                     funds = [[rng.choice(others)[1], str(delivered_amt)]]
+            elif fmode == "split" and nat_named:
+                others = [a for a in w.natives if a != nat_named]
+                if others:
+                    funds = [[nat_named[1], str(max(1, delivered_amt + rng.choice([-1, 1, 1 - delivered_amt])))],
+                             [rng.choice(others)[1], str(named_amt if named_amt > 0 else delivered_amt)]]
             elif fmode == "lookalike" and nat_named and nat_named[1] in w.lookalikes:
                 funds = [[w.lookalikes[nat_named[1]], str(delivered_amt)]]
                 if actor not in ("attacker", "trader1", "trader2", "lp1"):
@@ -188,7 +193,7 @@ class HistGen:
         return op, (self.sim_quote(p, named, named_amt) if named in p.assets else [])
 
     # -- exhaustive walks (finite spaces enumerated per sampled world state) ---------------------------------
-    FUNDS_MODES = ["exact", "less", "more", "absent", "extra", "other_only", "lookalike"]
+    FUNDS_MODES = ["exact", "less", "more", "absent", "extra", "other_only", "lookalike", "split"]
     AMT_MODES = ["eq", "less", "more", "zero_named"]
 
     def swap_cell(self, p, actor, entry, named, amt_mode, how, base, to=None):
@@ -227,6 +232,10 @@ class HistGen:
                 if not (nat and nat[1] in w.lookalikes):
                     return None
                 funds = [[w.lookalikes[nat[1]], str(base)]]
+            elif how == "split":
+                if not (nat and others):
+                    return None
+                funds = [[nat[1], str(base + 1)], [others[0][1], str(named_amt if named_amt > 0 else base)]]
             if any(w.ledger.get(actor, w.denom_key(d)) < int(a) for d, a in funds):
                 return None
             cell.append("funds=" + how)
@@ -335,7 +344,31 @@ class HistGen:
         r0, r1 = p.reserves(led)
         d = [rel_amount(rng, r0, w.scale_bits, 1 << 100), rel_amount(rng, r1, w.scale_bits, 1 << 100)]
         nat = [i for i in (0, 1) if p.assets[i][0] == "n"]
-        mode = rng.choice(["less", "more", "absent", "zero_named", "swap_amounts", "extra", "wrong_asset", "other_only", "lookalike"])
+        mode = rng.choice(["less", "more", "absent", "zero_named", "swap_amounts", "extra", "wrong_asset", "other_only", "lookalike",
+                           "same_asset_twice", "split"])
+        if p.supply(led) == 0 and p.whitelist and rng.random() < 0.7:
+            actor = rng.choice(p.whitelist)      # an entitled first provider with malformed funds
+            d = [max(d[0], p.mins[0]), max(d[1], p.mins[1])]
+        if mode == "same_asset_twice":
+            # both entries name the SAME pair asset (the other asset is never named)
+            k = rng.randrange(2)
+            op = w.op_provide(actor, p, d)
+            info = ainfo(p.assets[k])
+            for a_ in op["msg"]["provide_liquidity"]["assets"]:
+                a_["info"] = info
+            if p.assets[k][0] == "n":
+                amt = rng.choice(d)
+                for a_ in op["msg"]["provide_liquidity"]["assets"]:
+                    if rng.random() < 0.7:
+                        a_["amount"] = str(amt)
+                op["funds"] = [[p.assets[k][1], str(amt)]]
+            else:
+                op["funds"] = []
+            op["sem"]["funds"] = [(d_, int(a_)) for d_, a_ in op["funds"]]
+            op["sem"]["well_formed"] = False
+            op["sem"]["mal_mode"] = "wrong_asset"
+            op["kind"] = "provide_malformed"
+            return op, []
         funds = dict((p.assets[i][1], d[i]) for i in nat)
         if mode == "wrong_asset":
             others = [a for a in w.all_assets() if a not in p.assets]
@@ -383,6 +416,12 @@ class HistGen:
                 del funds[dn]
                 funds[w.lookalikes[dn]] = d[i]
                 actor = rng.choice(["attacker", "trader1", "trader2", "lp1"])
+            elif mode == "split":
+                # the declared denom is attached with another amount, and ANOTHER coin carries exactly the declared amount
+                others = [a for a in w.natives if a not in p.assets]
+                if others:
+                    funds[dn] = max(1, d[i] + rng.choice([-1, 1, -d[i] + 1]))
+                    funds[rng.choice(others)[1]] = d[i]
         fo = sorted([k, str(v)] for k, v in funds.items() if v > 0)
         op = w.op_provide(actor, p, d, funds_override=fo, reverse=rng.random() < 0.3,
                           receiver=rng.choice([None, None, "recv"]))
@@ -517,6 +556,13 @@ class HistGen:
             m = rng.choice([q + 1, q + 1 + rng.randrange(0, q + 2), 2 * q + 1, max(0, q - 1), 1])
         op = w.op_route(actor, spec["hops"], spec["amount"], minimum_receive=m, to=to)
         op["sem"]["quote"] = quote_amount
+        if final[0] == "t" and rng.random() < 0.08:
+            # the same final token, its address written in another letter case in the LAST hop only (addresses are
+            # case-insensitive for the registry): monitors keep the normalised asset
+            inner = op["msg"]["execute_swap_operations"] if "execute_swap_operations" in op["msg"] else None
+            if inner is not None:
+                inner["operations"][-1]["halo_swap"]["ask_asset_info"] = {"token": {"contract_addr": final[1].upper()}}
+                op["sem"]["spelling"] = "upper_final"
         return op
 
     def g_route_bad(self):
@@ -524,7 +570,7 @@ class HistGen:
         w, rng = self.w, self.rng
         actor = self.actor()
         A = w.all_assets()
-        mode = rng.choice(["empty", "dangling", "merge", "unknown_pair", "wrong_entry", "repeat_pair"])
+        mode = rng.choice(["empty", "dangling", "merge", "unknown_pair", "wrong_entry", "repeat_pair", "identity_hop"])
         ps = self.paths()
         if mode == "empty":
             hops = []
@@ -571,6 +617,14 @@ class HistGen:
         elif mode == "unknown_pair":
             a, b = rng.sample(A, 2)
             hops = [(a, b)] if not w.pair_for(a, b) else [(a, ("t", w.rogue))]
+        elif mode == "identity_hop":
+            # a hop asking for the asset it offers (no such pair can exist), inside an otherwise executable chain
+            base = list(rng.choice(ps))
+            k = rng.randrange(0, len(base) + 1)
+            x = base[k][0] if k < len(base) else base[-1][1]
+            hops = base[:k] + [(x, x)] + base[k:]
+            if rng.random() < 0.15:
+                hops = [(x, x)]
         elif mode == "repeat_pair":
             h = rng.choice(ps)[:1]
             hops = h + [(h[0][1], h[0][0])] + (h if rng.random() < 0.5 else [])
@@ -591,7 +645,17 @@ class HistGen:
         w, rng = self.w, self.rng
         actor = self.actor()
         r = rng.random()
-        if r < 0.75:
+        if r < 0.12:
+            # a coin / token the pair does not trade, parked on the pair (must never disturb it)
+            p = self.pair()
+            foreign = [a for a in w.all_assets() if a not in p.assets] + [("t", w.rogue)]
+            target, asset, res = p.addr, rng.choice(foreign), 1 << w.scale_bits
+            if asset[1] == w.rogue:
+                actor = "attacker"
+            if rng.random() < 0.4 and (w.lookalikes or w.addr_denoms):
+                actor = "attacker"
+                asset = ("n", rng.choice(sorted(w.lookalikes.values()) + w.addr_denoms))
+        elif r < 0.75:
             p = self.pair()
             target, asset = p.addr, rng.choice(p.assets)
             res = p.reserves(w.ledger)[p.idx(asset)]
